@@ -224,6 +224,20 @@ pub fn check_state(repo: &Repo, fmt: &str, cx: &mut Cx) -> Res {
                 if m.dirty() { "dirty for other reasons" } else { "clean" },
                 ctx()
             );
+            // the same configuration sets column.ui / color.ui = always, tag.sort, log.decorate,
+            // status.short / status.branch: display settings, so every other fact is as in the plain run
+            let (mut a, mut b) = (z3.vars.clone(), z.vars.clone());
+            a.dirty = None;
+            b.dirty = None;
+            // tag.sort changes the order in which git lists a commit's tags: among several names of one
+            // version (1.2.3+build.5 / 1.2.3+build.6) either is a highest tag; the version fields decide
+            a.last_tag_version = None;
+            b.last_tag_version = None;
+            if z.vars.dirty == Some(true) || z3.vars.dirty == Some(true) {
+                a.bumped_timestamp = None;
+                b.bumped_timestamp = None;
+            }
+            ensure!(a == b, "under a user configuration with column.ui / color.ui = always, tag.sort, log.decorate, status.short the extracted facts differ from the plain run\n  plain : {b:?}\n  config: {a:?}\n  ({})", ctx());
             cx.label("global-excludes-file");
             cx.extra_evals += 1;
         }
@@ -330,6 +344,7 @@ pub fn op_strategy() -> BoxedStrategy<Op> {
         1 => (0usize..crate::gitlab::TAGS.len()).prop_map(|name| Op::TagUnreachable { name }),
         1 => (0usize..8).prop_map(|which| Op::DeleteTag { which }),
         1 => Just(Op::DirtyModify),
+        1 => Just(Op::DirtyMode),
         1 => Just(Op::DirtyStage),
         1 => Just(Op::DirtyUntracked),
         1 => Just(Op::IgnoredOnly),
